@@ -680,6 +680,8 @@ func checkC01(c *Ctx) {
 	laMaxLevels(c, "LA-maxlevels")
 	laTrim(c, "LA-trim")
 	laPages(c, "LA-pages")
+	laNonNull(c, "LA-nonnull")
+	laSizes(c, "LA-sizes")
 	r.assume("per-shape inversion of shredding by assembly is claimed under C05 (TV-asm/TV-shred), not here")
 }
 
@@ -815,6 +817,7 @@ func checkC15(c *Ctx) {
 		r.bad("LA-types", "optional <-> pointer", u.Pos(fld.Pos()), "structs.field does not emit a pointer exactly for OPTIONAL schema elements")
 	}
 	// the footer schema parquetgen -parquet reads: group child counts are per group
+	laStructs(c, "LA-structs")
 	laCells(c, "LA-cells")
 	r.floor("LA-types/table-entries", 6, "BOOLEAN, INT32, INT64, FLOAT, DOUBLE, BYTE_ARRAY")
 	r.assume("tree reconstruction from num_children (structs.getStruct) is NOT decided")
